@@ -987,12 +987,40 @@ fn c20(seed: u64, thorough: bool) -> Scenario {
     let base = scenario(sub, mix(seed, "base"), thorough);
     let (world, plan) = base.runs[0].clone();
     let k = if thorough { 16 } else { 6 };
+    // "the directory inside the repository from which it is started" is nondeterminism too, for
+    // rules that reference no external script and globs that do not depend on the cwd
+    let mut uses_lua = false;
+    for f in &world.files {
+        for_each_block(&f.blocks, &mut |b| uses_lua |= b.has("check-lua"));
+    }
+    let cwd_free = !uses_lua
+        && world.args.globs.iter().chain(world.args.ignore.iter()).all(|g| g.starts_with("**"));
+    let mut dirs: Vec<String> = vec![String::new()];
+    for f in &world.files {
+        if matches!(f.diff, FileDiff::Deleted) {
+            continue;
+        }
+        let comps: Vec<&str> = f.path.split('/').collect();
+        for k in 1..comps.len() {
+            let d = comps[..k].join("/");
+            if !dirs.contains(&d) {
+                dirs.push(d);
+            }
+        }
+    }
     let mut runs = vec![(world.clone(), plan.clone())];
     for _ in 1..k {
-        runs.push((world.clone(), redraw_plan(&plan, &mut prng)));
+        let mut w = world.clone();
+        if cwd_free {
+            w.cwd = prng.pick(&dirs).clone();
+        }
+        runs.push((w, redraw_plan(&plan, &mut prng)));
     }
     let mut tags = base.tags.clone();
     tags.push(format!("sub={sub}"));
+    if cwd_free && dirs.len() > 1 {
+        tags.push("cwd-varied".into());
+    }
     Scenario {
         prop: String::new(),
         seed,
@@ -1362,6 +1390,9 @@ pub fn stats(sc: &Scenario, reports: &[ChildReport]) -> ScenarioStats {
             }
             let sub = sc.tags.iter().find(|t| t.starts_with("sub=")).cloned().unwrap_or_default();
             bump(&mut st.probes, &sub);
+            if sc.tags.iter().any(|t| t == "cwd-varied") {
+                bump(&mut st.probes, "replicates_started_from_different_directories");
+            }
             st.signature = fnv_hex(&format!("{shape}{sub}"));
         }
         _ => {}
